@@ -185,7 +185,11 @@ where
                 return None;
             }
             State::Parsing => {
-                self.increment_record();
+                // if an error interrupted the search of the current record, there is
+                // nothing to advance over; the search is resumed below
+                if self.incomplete_pos.is_none() {
+                    self.increment_record();
+                }
             }
         };
 
@@ -243,7 +247,10 @@ where
             State::Parsing => {
                 // next() was previously called, the current record has
                 // already been returned -> start parsing the next one
-                self.increment_record();
+                // (unless an error interrupted the search of the current record)
+                if self.incomplete_pos.is_none() {
+                    self.increment_record();
+                }
                 self.state = State::Positioned;
             }
             State::Positioned => {
